@@ -814,6 +814,17 @@ class Model:
                         else:
                             raise TypeError('Incorrect data type.')
                         row_ind = i*num_rand + np.arange(num_rand, dtype=int)
+                        if isinstance(drule, RoAffine):
+                            # decisions multiplied by random variables must
+                            # not be affinely adaptive (as in ro_to_roc)
+                            dec_ind = np.unique(raffine.linear[row_ind].indices)
+                            dec_ind = dec_ind[dec_ind < num_var]
+                            if len(dec_ind) > 0:
+                                rule_part = drule.raffine[dec_ind]
+                                if (rule_part.linear.nnz > 0 or
+                                        np.any(rule_part.const)):
+                                    raise SyntaxError('Incorrect affine '
+                                                      'expressions.')
                         new_raffine = raffine.linear[row_ind] @ temp
                         new_raffine = new_raffine.reshape((1, new_raffine.size))
                         new_raffine += raffine.const[i, :num_rand] + extra
